@@ -1,6 +1,7 @@
 import FinProtoc.Visit
 import FinProtoc.Generated.Facts
 import FinProtoc.Proofs.VisitDiag
+import FinProtoc.Proofs.VisitDiag2
 import FinProtoc.Dsl.Parser
 /-!
 # C12 — ill-formed DSL is rejected at the right line; well-formed DSL is accepted
@@ -22,12 +23,23 @@ loops of the visitor, for every concrete syntax tree `c`:
   the offence in the file ⇒ its diagnostic, at the line of the offending declaration, in `(Visit.run c).diags`;
 * C `dup_field_run`, `len_nonroot_run`: the same for a duplicate field and for a length field outside the root packet;
 * D `wf_accepted_partial` (a well-formed file of the flat fragment is accepted without diagnostics) and
-  `clean_run_sound` (a run without diagnostics has none of the offences of B and C).
+  `clean_run_sound` (a run without diagnostics has none of the offences of B and C);
+* E (helper lemmas in `Proofs/VisitDiag2.lean`) `unknown_field_type_run`, `unknown_match_target_run` (both diagnosed by
+  `ResolveDependencies`, followed through the in-place updates of the attribute slot by the relation `Evo`),
+  `dup_match_key_run`, `dup_len_run`, `unknown_len_target_run`, `len_target_before_run`, `unknown_key_field_run`,
+  `unknown_meta_ref_run`, and
+  `clean_run_sound_ext` (a run without diagnostics has none of these offences and at most one root packet);
+* F `wf_accepted_refs_partial` (flat fragment + `RefMetaData` entries naming an earlier entry) and
+  `wf_accepted_calc_partial` (+ prefix `@calculatedFrom` on fields that are not `char[n]`).
 
-Not lifted yet: unknown packet type / key field / length target, duplicate `LengthOfField`, duplicate match key,
-length target before the length field, recursion (their diagnostics are modelled and compared with the real code by the
-differential `model` op); the acceptance theorem for files with length fields, packet-typed fields, inline objects and
-match fields (the full `WF` is spelled out at `wf_accepted_partial`).
+  Nested: `dup_match_key_nested_run`, `len_in_inline_run`, `unknown_key_in_inline_run` (offences inside inline objects, at
+  any depth, `SubFd`).
+
+Not lifted yet: the recursion diagnostic and the unknown packet types / match targets of fields INSIDE inline objects (their
+diagnostics are modelled and compared with the real code by the differential `model` op), and the acceptance theorem for
+files with length fields, packet-typed fields, inline objects and match fields (the full `WF` is spelled out at
+`wf_accepted_partial`; the packet-level part of the acceptance proof is already stated for every field whose visit is
+silent and yields a basic / `char[n]` / string / checksum attribute, `QuietFieldSem`).
 -/
 namespace FinProtoc.Props
 open FinProtoc FinProtoc.Visit
@@ -563,6 +575,587 @@ example : (match Visit.run exFlat with
 
 example : diagsOfText "MetaData M {\n u16 MsgType,\n char[4] Code,\n}\noptions {\n LittleEndian = true;\n}\nroot packet P {\n MsgType,\n @leftPad('0') char[6] Seq,\n string Name,\n u32 Crc @calculatedFrom(\"CRC32\"),\n}\npacket Q {\n u8 x,\n}\n" = some [] := by
   decide +kernel
+
+/-! ## E. Unknown packet types (diagnosed by `ResolveDependencies`), duplicate match keys, a second length field
+
+Helper lemmas in `Proofs/VisitDiag2.lean`.  `attrKeeps a` says that the prefix attribute `a` leaves the attribute object of
+the field alone (`@tag(n)` and the padding attributes do; `@calculatedFrom(..)` / `@lengthOf(..)` replace it, and the field
+is then no longer an object / match field). -/
+
+/-- **E, unknown packet type of an object field.**  Let `p` be the first packet definition of its name, `f` a field of `p`
+that does not repeat the name of an earlier field of `p`, of the form `[repeat] T [name]` with only `@tag` / padding prefix
+attributes, where `T` is neither the name of a MetaData entry nor the name of a packet defined anywhere in the file.  Then the
+run reports `Unknown packet type T for field <name>` at the first line of the field definition (`repeat` if present, else
+`T`).  The diagnostic is issued by `ResolveDependencies`, after every packet has been registered, from the attribute slot
+that the second loop of `VisitPacketDefinition` and `resolveFields` overwrite in place. -/
+theorem unknown_field_type_run (c : Cst) (p : PacketDef) (f : FieldWA) (L1 L2 : List TopDef) (l1 l2 : List FieldWA)
+    (rep : Option Tok) (ft : Tok) (fn doc : Option Tok) (comma : Tok) (s : VState)
+    (hcd : c.defs = L1 ++ .packet p :: L2) (hpn : p.name.text ∉ packetNames L1)
+    (hc : p.fields = l1 ++ f :: l2) (hnew : fieldName f.fd ∉ l1.map (fun f => fieldName f.fd))
+    (hfd : f.fd = .obj rep ft fn doc comma) (hk : ∀ a, a ∈ f.attrs → attrKeeps a = true)
+    (hnm : ft.text ∉ metaNames c) (hnp : ft.text ∉ packetNames c.defs) (hr : Visit.run c = .ok s) :
+    ((rep.getD ft).line, "Unknown packet type " ++ ft.text ++ " for field " ++ fieldName f.fd) ∈ s.diags := by
+  refine run_tracked L1 L2 p f l1 l2 hcd hc (.object false ft.text .none) (rep.getD ft).line (by rw [hfd]; rfl) hk hnew hpn
+    ?_ ?_ hr
+  · intro s2 hmf
+    rw [hfd]
+    exact findMeta_none_of_metaFrom hmf hnm
+  · intro fuel g s1 hpk ht
+    exact resolveField_unknownObj fuel g s1 _ ft.text _ ht
+      (not_hasPk_of_pkFrom hpk (fun r hr e => hnp (e ▸ mem_packetNames hr)))
+
+/-- **E, unknown packet type of a match target.**  Let `p` be the first packet definition of its name and `f` a match field
+`match key as name { .. }` of `p` (only `@tag` / padding prefix attributes) that does not repeat the name of an earlier field.
+For every key/target pair `pr` of the field (`pairsOfMatch d`: one per key, see `mem_pairsOfMatch_single` /
+`mem_pairsOfMatch_list`) whose target is not the name of a packet defined anywhere in the file the run reports
+`Unknown packet type <target> for match key <key> of field <name>` at the line of that key. -/
+theorem unknown_match_target_run (c : Cst) (p : PacketDef) (f : FieldWA) (L1 L2 : List TopDef) (l1 l2 : List FieldWA)
+    (d : MatchDecl) (comma : Tok) (pr : MPair) (s : VState)
+    (hcd : c.defs = L1 ++ .packet p :: L2) (hpn : p.name.text ∉ packetNames L1)
+    (hc : p.fields = l1 ++ f :: l2) (hnew : fieldName f.fd ∉ l1.map (fun f => fieldName f.fd))
+    (hfd : f.fd = .match_ d comma) (hk : ∀ a, a ∈ f.attrs → attrKeeps a = true)
+    (hpr : pr ∈ pairsOfMatch d) (hnp : pr.value ∉ packetNames c.defs) (hr : Visit.run c = .ok s) :
+    (pr.line, "Unknown packet type " ++ pr.value ++ " for match key " ++ pr.key ++ " of field " ++ d.name.text) ∈ s.diags := by
+  have hname : fieldName f.fd = d.name.text := by rw [hfd]; rfl
+  rw [← hname]
+  refine run_tracked L1 L2 p f l1 l2 hcd hc (.match_ (some d.key.text) false (pairsOfMatch d)) 0 (by rw [hfd]; rfl) hk hnew hpn
+    ?_ ?_ hr
+  · intro s2 _
+    rw [hfd]
+    trivial
+  · intro fuel g s1 hpk ht
+    exact resolveField_unknownTarget fuel g s1 _ 0 _ _ pr hpr ht
+      (not_hasPk_of_pkFrom hpk (fun r hr e => hnp (e ▸ mem_packetNames hr)))
+
+/-- the model pair of a match pair with a single key: the key without leading zeros, the target, the line of the key -/
+theorem mem_pairsOfMatch_single (d : MatchDecl) (p : MatchPair) (t : Tok) (hp : p ∈ d.pairs) (hk : p.key = .single t) :
+    ({ key := keyText t, value := p.target.text, line := t.line } : MPair) ∈ pairsOfMatch d := by
+  unfold pairsOfMatch
+  refine List.mem_flatten.2 ⟨_, List.mem_map.2 ⟨p, hp, rfl⟩, ?_⟩
+  rw [hk]
+  exact List.mem_singleton.2 rfl
+
+/-- the model pairs of a match pair with a key list `[k1, k2, ..]`: one per item that is a number or a string -/
+theorem mem_pairsOfMatch_list (d : MatchDecl) (p : MatchPair) (lb first : Tok) (rest : List (Tok × Tok)) (rb t : Tok)
+    (hp : p ∈ d.pairs) (hk : p.key = .list lb first rest rb) (ht : t ∈ first :: rest.map (·.2))
+    (hkind : t.kind = .digits ∨ t.kind = .string) :
+    ({ key := keyText t, value := p.target.text, line := t.line } : MPair) ∈ pairsOfMatch d := by
+  unfold pairsOfMatch
+  refine List.mem_flatten.2 ⟨_, List.mem_map.2 ⟨p, hp, rfl⟩, ?_⟩
+  rw [hk]
+  refine List.mem_map.2 ⟨t, ?_, rfl⟩
+  rcases hkind with h | h
+  · exact List.mem_append_left _ (List.mem_filter.2 ⟨ht, by simp [h]⟩)
+  · exact List.mem_append_right _ (List.mem_filter.2 ⟨ht, by simp [h]⟩)
+
+/-- **E, duplicate match key.**  If a match field of a packet of the file has two key/target pairs `a` before `b` (in the
+order of `pairsOfMatch d`: pair by pair, within a key list the numbers before the strings) with the same key - integer keys
+are compared without leading zeros - the run reports `Duplicate match key: <key>` at the line of the later key. -/
+theorem dup_match_key_run (c : Cst) (p : PacketDef) (f : FieldWA) (d : MatchDecl) (comma : Tok) (a b : MPair) (s : VState)
+    (hp : TopDef.packet p ∈ c.defs) (hf : f ∈ p.fields) (hfd : f.fd = .match_ d comma)
+    (hb : Before (pairsOfMatch d) a b) (hk : a.key = b.key) (hr : Visit.run c = .ok s) :
+    (b.line, "Duplicate match key: " ++ b.key) ∈ s.diags :=
+  diag_of_field p f hp hf (fun s0 _ => by rw [hfd, visitFieldDef]; exact visitMatch_dupKey d a b hb hk s0) hr
+
+/-- **E, a second length field.**  If the root packet declares a length field `f1` and, later, a length field `f2`, the run
+reports `Duplicate LengthOfField declaration` at the first line of `f2`. -/
+theorem dup_len_run (c : Cst) (p : PacketDef) (f1 f2 : FieldWA) (s : VState) (hp : TopDef.packet p ∈ c.defs)
+    (hroot : p.root.isSome = true) (hb : Before p.fields f1 f2) (h1 : isLenSyn f1 = true) (h2 : isLenSyn f2 = true)
+    (hr : Visit.run c = .ok s) : (f2.start.line, "Duplicate LengthOfField declaration") ∈ s.diags := by
+  obtain ⟨l1, l2, l3, hc⟩ := hb
+  refine diag_of_packet p hp ?_ hr
+  intro s0 hi
+  rw [hc, hroot]
+  exact foldlM_offence2 Inv (fun b x s h => pktStep1_inv _ _ b x s h) hasLenF
+    (fun b x s _ hf => pktStep1_lenKeep _ _ b x s hf) f1 f2 l1 l2 l3 _ _ s0 hi
+    (fun b s h => pktStep1_lenSome _ b f1 s h h1) (fun b s h hf => pktStep1_dupLen _ b f2 s h h2 hf)
+
+/-! ### Non-vacuity of E -/
+
+/-- `<T> <name>,` -/
+private def fObj (ty name : String) (l : Nat) : FieldWA :=
+  { attrs := [], fd := .obj none (tk .ident ty l) (some (tk .ident name l)) none (tk .comma "," l) }
+
+/-- `packet A { Foo x, }` -/
+private def exUnkType : Cst := { defs := [.packet (pkD false "A" 1 [fObj "Foo" "x" 2])] }
+
+example (s : VState) (h : Visit.run exUnkType = .ok s) :
+    (2, "Unknown packet type " ++ "Foo" ++ " for field " ++ fieldName (fObj "Foo" "x" 2).fd) ∈ s.diags :=
+  unknown_field_type_run exUnkType (pkD false "A" 1 [fObj "Foo" "x" 2]) (fObj "Foo" "x" 2) [] [] [] [] none _ _ none _ s
+    rfl (by decide) rfl (by decide) rfl (fun a ha => by cases ha) (by decide) (by decide) h
+
+example : diagsOfText "packet A {\n Foo x,\n}\n" = some [(2, "Unknown packet type Foo for field x")] := by decide +kernel
+
+private def mPair (key target : String) (l : Nat) : MatchPair :=
+  { key := .single (tk .digits key l), colon := tk .colon ":" l, target := tk .ident target l, comma := some (tk .comma "," l) }
+
+private def mDecl (key name : String) (l : Nat) (pairs : List MatchPair) : MatchDecl :=
+  { kw := tk .match_ "match" l, key := tk .ident key l, as_ := tk .kwAs "as" l, name := tk .ident name l, lb := tk .lbrace "{" l,
+    pairs := pairs, rb := tk .rbrace "}" (l + pairs.length + 1) }
+
+/-- `match <key> as <name> { .. },` -/
+private def fMatch (key name : String) (l : Nat) (pairs : List MatchPair) : FieldWA :=
+  { attrs := [], fd := .match_ (mDecl key name l pairs) (tk .comma "," (l + pairs.length + 1)) }
+
+/-- `packet A { u8 kind, match kind as Body { 1 : B, 2 : C, }, }  packet B { u8 x, }` -/
+private def exUnkTarget : Cst :=
+  { defs := [.packet (pkD false "A" 1 [fU8 "kind" 2, fMatch "kind" "Body" 3 [mPair "1" "B" 4, mPair "2" "C" 5]]),
+             .packet (pkD false "B" 8 [fU8 "x" 9])] }
+
+example (s : VState) (h : Visit.run exUnkTarget = .ok s) :
+    (5, "Unknown packet type " ++ "C" ++ " for match key " ++ "2" ++ " of field " ++ "Body") ∈ s.diags :=
+  unknown_match_target_run exUnkTarget _ (fMatch "kind" "Body" 3 [mPair "1" "B" 4, mPair "2" "C" 5]) [] _ [fU8 "kind" 2] []
+    _ _ { key := "2", value := "C", line := 5 } s rfl (by decide) rfl (by decide) rfl (fun a ha => by cases ha)
+    (mem_pairsOfMatch_single _ (mPair "2" "C" 5) _ (by simp [mDecl]) rfl) (by decide) h
+
+example : diagsOfText "packet A {\n u8 kind,\n match kind as Body {\n  1 : B,\n  2 : C,\n },\n}\npacket B {\n u8 x,\n}\n" =
+    some [(5, "Unknown packet type C for match key 2 of field Body")] := by decide +kernel
+
+/-- `packet A { u8 kind, match kind as Body { 1 : B, 01 : B, }, }  packet B { u8 x, }` -/
+private def exDupKey : Cst :=
+  { defs := [.packet (pkD false "A" 1 [fU8 "kind" 2, fMatch "kind" "Body" 3 [mPair "1" "B" 4, mPair "01" "B" 5]]),
+             .packet (pkD false "B" 8 [fU8 "x" 9])] }
+
+example (s : VState) (h : Visit.run exDupKey = .ok s) : (5, "Duplicate match key: " ++ "1") ∈ s.diags :=
+  dup_match_key_run exDupKey _ (fMatch "kind" "Body" 3 [mPair "1" "B" 4, mPair "01" "B" 5]) _ _
+    { key := "1", value := "B", line := 4 } { key := "1", value := "B", line := 5 } s
+    (List.mem_cons_self ..) (by simp [pkD]) rfl ⟨[], [], [], by decide⟩ rfl h
+
+example : diagsOfText "packet A {\n u8 kind,\n match kind as Body {\n  1 : B,\n  01 : B,\n },\n}\npacket B {\n u8 x,\n}\n" =
+    some [(5, "Duplicate match key: 1")] := by decide +kernel
+
+/-- `root packet A { u16 L1 @lengthOf(Body), u16 L2 @lengthOf(Body), string Body, }` -/
+private def exDupLen : Cst :=
+  { defs := [.packet (pkD true "A" 1 [fLen "L1" "Body" 2, fLen "L2" "Body" 3, fT .string "string" "Body" 4])] }
+
+example (s : VState) (h : Visit.run exDupLen = .ok s) :
+    ((fLen "L2" "Body" 3).start.line, "Duplicate LengthOfField declaration") ∈ s.diags :=
+  dup_len_run exDupLen _ (fLen "L1" "Body" 2) (fLen "L2" "Body" 3) s (List.mem_singleton.2 rfl) rfl
+    ⟨[], [], [fT .string "string" "Body" 4], rfl⟩ rfl rfl h
+
+example : diagsOfText "root packet A {\n u16 L1 @lengthOf(Body),\n u16 L2 @lengthOf(Body),\n string Body,\n}\n" =
+    some [(3, "Duplicate LengthOfField declaration")] := by decide +kernel
+
+/-- **E, duplicate match key, also inside inline objects.**  As `dup_match_key_run`, for a match field that is the field `f`
+itself or is nested (at any depth) in the inline object `f` (`SubFd`, `Proofs/VisitDiag2.lean`). -/
+theorem dup_match_key_nested_run (c : Cst) (p : PacketDef) (f : FieldWA) (d : MatchDecl) (comma : Tok) (a b : MPair)
+    (s : VState) (hp : TopDef.packet p ∈ c.defs) (hf : f ∈ p.fields) (hsub : SubFd (.match_ d comma) f.fd)
+    (hb : Before (pairsOfMatch d) a b) (hk : a.key = b.key) (hr : Visit.run c = .ok s) :
+    (b.line, "Duplicate match key: " ++ b.key) ∈ s.diags :=
+  diag_of_field p f hp hf (fun s0 _ => visitFieldDef_sub_diag _ hsub
+    (fun s => by rw [visitFieldDef]; exact visitMatch_dupKey d a b hb hk s) s0) hr
+
+/-- `packet A { Inner { u8 kind, match kind as Body { 1 : B, 1 : B, }, }, }  packet B { u8 x, }` -/
+private def exDupKeyNested : Cst :=
+  { defs := [.packet (pkD false "A" 1 [
+      { attrs := [], fd := .iner none (tk .ident "Inner" 2) (tk .lbrace "{" 2)
+          [(fU8 "kind" 3).fd, (fMatch "kind" "Body" 4 [mPair "1" "B" 5, mPair "1" "B" 6]).fd] (tk .rbrace "}" 8) (tk .comma "," 8) }]),
+             .packet (pkD false "B" 10 [fU8 "x" 11])] }
+
+example (s : VState) (h : Visit.run exDupKeyNested = .ok s) : (6, "Duplicate match key: " ++ "1") ∈ s.diags :=
+  dup_match_key_nested_run exDupKeyNested _ _ (mDecl "kind" "Body" 4 [mPair "1" "B" 5, mPair "1" "B" 6]) (tk .comma "," 7)
+    { key := "1", value := "B", line := 5 } { key := "1", value := "B", line := 6 } s
+    (List.mem_cons_self ..) (List.mem_singleton.2 rfl)
+    (SubFd.iner _ _ _ _ _ (List.mem_cons_of_mem _ (List.mem_singleton.2 rfl)) (SubFd.refl _)) ⟨[], [], [], by decide⟩ rfl h
+
+example : diagsOfText "packet A {\n Inner {\n  u8 kind,\n  match kind as Body {\n   1 : B,\n   1 : B,\n  },\n },\n}\npacket B {\n u8 x,\n}\n" =
+    some [(6, "Duplicate match key: 1")] := by decide +kernel
+
+/-- the declaration inside `fLen` -/
+private def dLen (name target : String) (l : Nat) : LenDecl :=
+  { ty := some (.basic (tk .uint16 "u16" l)), name := tk .ident name l,
+    attr := { kw := tk .lengthOf "@lengthOf(" l, from_ := tk .ident target l, rp := tk .rparen ")" l },
+    doc := none, comma := tk .comma "," l }
+
+/-- **E, length field inside an inline object.**  A length field declaration `[type] N @lengthOf(T)` among the sub-fields of
+an inline object - the inline object being a field `f` of a packet of the file (root or not) or nested in `f` at any depth -
+is reported with `LengthOfField can only be declared in the root packet` at the first line of the declaration. -/
+theorem len_in_inline_run (c : Cst) (p : PacketDef) (f : FieldWA) (rep : Option Tok) (name lb rb comma : Tok)
+    (a b : List FieldDef) (d : LenDecl) (s : VState) (hp : TopDef.packet p ∈ c.defs) (hf : f ∈ p.fields)
+    (hsub : SubFd (.iner rep name lb (a ++ .len d :: b) rb comma) f.fd) (hr : Visit.run c = .ok s) :
+    ((FieldDef.len d).start.line, "LengthOfField can only be declared in the root packet") ∈ s.diags :=
+  diag_of_field p f hp hf (fun s0 _ => visitFieldDef_sub_diag _ hsub
+    (fun s => visitFieldDef_lenInInline rep name lb rb comma a b d s) s0) hr
+
+/-- `root packet A { Inner { u16 L @lengthOf(Body), string Body, }, }` -/
+private def exLenInline : Cst :=
+  { defs := [.packet (pkD true "A" 1 [
+      { attrs := [], fd := .iner none (tk .ident "Inner" 2) (tk .lbrace "{" 2)
+          [.len (dLen "L" "Body" 3), (fT .string "string" "Body" 4).fd] (tk .rbrace "}" 5) (tk .comma "," 5) }])] }
+
+example (s : VState) (h : Visit.run exLenInline = .ok s) :
+    (3, "LengthOfField can only be declared in the root packet") ∈ s.diags :=
+  len_in_inline_run exLenInline _ _ none (tk .ident "Inner" 2) (tk .lbrace "{" 2) (tk .rbrace "}" 5) (tk .comma "," 5) []
+    [(fT .string "string" "Body" 4).fd] (dLen "L" "Body" 3) s (List.mem_singleton.2 rfl) (List.mem_singleton.2 rfl) (SubFd.refl _) h
+
+example : diagsOfText "root packet A {\n Inner {\n  u16 L @lengthOf(Body),\n  string Body,\n },\n}\n" =
+    some [(3, "LengthOfField can only be declared in the root packet")] := by decide +kernel
+
+/-- **E, unknown key field inside an inline object.**  A match field `match K as N { .. }` among the sub-fields of an inline
+object (the inline object being a field `f` of a packet of the file, or nested in `f` at any depth) whose key `K` is not the
+name of a sub-field of that inline object is reported with `Unknown key field K for match field N` at its first line. -/
+theorem unknown_key_in_inline_run (c : Cst) (p : PacketDef) (f : FieldWA) (rep : Option Tok) (name lb rb comma' : Tok)
+    (a b : List FieldDef) (d : MatchDecl) (comma : Tok) (s : VState) (hp : TopDef.packet p ∈ c.defs) (hf : f ∈ p.fields)
+    (hsub : SubFd (.iner rep name lb (a ++ .match_ d comma :: b) rb comma') f.fd)
+    (hkey : d.key.text ∉ (a ++ .match_ d comma :: b).map fieldName) (hr : Visit.run c = .ok s) :
+    ((FieldDef.match_ d comma).start.line, "Unknown key field " ++ d.key.text ++ " for match field " ++ d.name.text) ∈ s.diags :=
+  diag_of_field p f hp hf (fun s0 _ => visitFieldDef_sub_diag _ hsub
+    (fun s => visitFieldDef_unknownKeyInline rep name lb rb comma' a b d comma hkey s) s0) hr
+
+/-- `packet A { Inner { match kind as Body { 1 : B, }, }, }  packet B { u8 x, }` -/
+private def exUnkKeyInline : Cst :=
+  { defs := [.packet (pkD false "A" 1 [
+      { attrs := [], fd := .iner none (tk .ident "Inner" 2) (tk .lbrace "{" 2)
+          [(fMatch "kind" "Body" 3 [mPair "1" "B" 4]).fd] (tk .rbrace "}" 6) (tk .comma "," 6) }]),
+             .packet (pkD false "B" 8 [fU8 "x" 9])] }
+
+example (s : VState) (h : Visit.run exUnkKeyInline = .ok s) :
+    (3, "Unknown key field " ++ "kind" ++ " for match field " ++ "Body") ∈ s.diags :=
+  unknown_key_in_inline_run exUnkKeyInline _ _ none (tk .ident "Inner" 2) (tk .lbrace "{" 2) (tk .rbrace "}" 6) (tk .comma "," 6) [] []
+    (mDecl "kind" "Body" 3 [mPair "1" "B" 4]) (tk .comma "," 5) s (List.mem_cons_self ..) (List.mem_singleton.2 rfl) (SubFd.refl _)
+    (by decide) h
+
+example : diagsOfText "packet A {\n Inner {\n  match kind as Body {\n   1 : B,\n  },\n },\n}\npacket B {\n u8 x,\n}\n" =
+    some [(3, "Unknown key field kind for match field Body")] := by decide +kernel
+
+/-! ### The target of the length field -/
+
+/-- **E, unknown length target.**  Let `f` be a length field declaration `[type] N @lengthOf(T)` (only `@tag` / padding
+prefix attributes) of the root packet `p`, the first length field of `p` (no field before it is a length field), not
+repeating the name of an earlier field.  If `T` is not the name of any field of `p`, the run reports
+`Unknown field T for @lengthOf of field N` at the first line of `f`. -/
+theorem unknown_len_target_run (c : Cst) (p : PacketDef) (f : FieldWA) (d : LenDecl) (l1 l2 : List FieldWA) (s : VState)
+    (hp : TopDef.packet p ∈ c.defs) (hroot : p.root.isSome = true) (hc : p.fields = l1 ++ f :: l2) (hfd : f.fd = .len d)
+    (hk : ∀ a, a ∈ f.attrs → attrKeeps a = true) (hl1 : ∀ x, x ∈ l1 → isLenSyn x = false)
+    (hnew : d.name.text ∉ l1.map (fun f => fieldName f.fd))
+    (ht : d.attr.from_.text ∉ p.fields.map (fun f => fieldName f.fd)) (hr : Visit.run c = .ok s) :
+    (f.start.line, "Unknown field " ++ d.attr.from_.text ++ " for @lengthOf of field " ++ d.name.text) ∈ s.diags := by
+  refine diag_of_packetDef p hp ?_ hr
+  intro s0 hi
+  refine visitPacketDef_lenCheck p f d l1 l2 hroot hc hfd hk hl1 hnew _ s0 hi ?_
+  intro fields lines lf i F1 X s1 hnames hline hname hslot _ _ _
+  rw [← hline, ← hname]
+  refine pktLenCheck_unknown fields lines _ lf i s1 _ hslot ?_
+  cases hcn : (fields.map (·.name)).contains d.attr.from_.text with
+  | false => rfl
+  | true =>
+    exfalso
+    obtain ⟨g, hg, he⟩ := List.mem_map.1 (List.contains_iff_mem.1 hcn)
+    exact ht (he ▸ hnames g hg)
+
+/-- **E, length target declared before the length field.**  In the situation of `unknown_len_target_run`, if `T` is the name
+of a field `t` declared BEFORE `f` (the length slot is reserved where `f` stands and patched after the measured field), the
+run reports `Field T measured by @lengthOf of field N must be declared after it` at the first line of `f`. -/
+theorem len_target_before_run (c : Cst) (p : PacketDef) (f t : FieldWA) (d : LenDecl) (l1 l2 : List FieldWA) (s : VState)
+    (hp : TopDef.packet p ∈ c.defs) (hroot : p.root.isSome = true) (hc : p.fields = l1 ++ f :: l2) (hfd : f.fd = .len d)
+    (hk : ∀ a, a ∈ f.attrs → attrKeeps a = true) (hl1 : ∀ x, x ∈ l1 → isLenSyn x = false)
+    (hnew : d.name.text ∉ l1.map (fun f => fieldName f.fd))
+    (htm : t ∈ l1) (htn : fieldName t.fd = d.attr.from_.text) (hr : Visit.run c = .ok s) :
+    (f.start.line, "Field " ++ d.attr.from_.text ++ " measured by @lengthOf of field " ++ d.name.text ++
+      " must be declared after it") ∈ s.diags := by
+  refine diag_of_packetDef p hp ?_ hr
+  intro s0 hi
+  refine visitPacketDef_lenCheck p f d l1 l2 hroot hc hfd hk hl1 hnew _ s0 hi ?_
+  intro fields lines lf i F1 X s1 _ hline hname hslot hF hlen hreg
+  rw [← hline, ← hname]
+  have hany : F1.any (fun g => decide (g.name = d.attr.from_.text)) = true := by rw [← htn]; exact hreg t htm
+  obtain ⟨j, hj, e⟩ := findIdx?_append_of_any (fun g : MField => decide (g.name = d.attr.from_.text)) F1 X hany
+  refine pktLenCheck_before fields lines _ lf i j s1 _ hslot ?_ (by rw [hF]; exact e) (by omega)
+  rw [List.contains_iff_mem]
+  obtain ⟨g, hg, he⟩ := List.any_eq_true.1 hany
+  exact List.mem_map.2 ⟨g, by rw [hF]; exact List.mem_append_left _ hg, by simpa using he⟩
+
+/-- `root packet A { u16 L1 @lengthOf(Nope), string Body, }` -/
+private def exLenUnknown : Cst := { defs := [.packet (pkD true "A" 1 [fLen "L1" "Nope" 2, fT .string "string" "Body" 3])] }
+
+example (s : VState) (h : Visit.run exLenUnknown = .ok s) :
+    (2, "Unknown field " ++ "Nope" ++ " for @lengthOf of field " ++ "L1") ∈ s.diags :=
+  unknown_len_target_run exLenUnknown (pkD true "A" 1 [fLen "L1" "Nope" 2, fT .string "string" "Body" 3]) (fLen "L1" "Nope" 2)
+    (dLen "L1" "Nope" 2) [] [fT .string "string" "Body" 3] s (List.mem_singleton.2 rfl) rfl rfl
+    rfl (fun a ha => by cases ha) (fun x hx => by cases hx) (by decide) (by decide) h
+
+example : diagsOfText "root packet A {\n u16 L1 @lengthOf(Nope),\n string Body,\n}\n" =
+    some [(2, "Unknown field Nope for @lengthOf of field L1")] := by decide +kernel
+
+/-- `root packet A { string Body, u16 L1 @lengthOf(Body), }` -/
+private def exLenBefore : Cst := { defs := [.packet (pkD true "A" 1 [fT .string "string" "Body" 2, fLen "L1" "Body" 3])] }
+
+example (s : VState) (h : Visit.run exLenBefore = .ok s) :
+    (3, "Field " ++ "Body" ++ " measured by @lengthOf of field " ++ "L1" ++ " must be declared after it") ∈ s.diags :=
+  len_target_before_run exLenBefore (pkD true "A" 1 [fT .string "string" "Body" 2, fLen "L1" "Body" 3]) (fLen "L1" "Body" 3)
+    (fT .string "string" "Body" 2) (dLen "L1" "Body" 3) [fT .string "string" "Body" 2] [] s
+    (List.mem_singleton.2 rfl) rfl rfl rfl (fun a ha => by cases ha)
+    (fun x hx => by cases List.mem_singleton.1 hx; rfl) (by decide) (List.mem_singleton.2 rfl) rfl h
+
+example : diagsOfText "root packet A {\n string Body,\n u16 L1 @lengthOf(Body),\n}\n" =
+    some [(3, "Field Body measured by @lengthOf of field L1 must be declared after it")] := by decide +kernel
+
+/-! ### The key field of a match field -/
+
+/-- **E, unknown key field.**  Let `f` be a match field `match K as N { .. }` (only `@tag` / padding prefix attributes) of a
+packet `p` of the file, not repeating the name of an earlier field.  If `K` is not the name of any field of `p`, the run
+reports `Unknown key field K for match field N` at the first line of `f`. -/
+theorem unknown_key_field_run (c : Cst) (p : PacketDef) (f : FieldWA) (d : MatchDecl) (comma : Tok) (l1 l2 : List FieldWA)
+    (s : VState) (hp : TopDef.packet p ∈ c.defs) (hc : p.fields = l1 ++ f :: l2) (hfd : f.fd = .match_ d comma)
+    (hk : ∀ a, a ∈ f.attrs → attrKeeps a = true) (hnew : fieldName f.fd ∉ l1.map (fun f => fieldName f.fd))
+    (hkey : d.key.text ∉ p.fields.map (fun f => fieldName f.fd)) (hr : Visit.run c = .ok s) :
+    (f.start.line, "Unknown key field " ++ d.key.text ++ " for match field " ++ d.name.text) ∈ s.diags :=
+  diag_of_packetDef p hp (fun s0 hi => visitPacketDef_unknownKey p f d comma l1 l2 hc hfd hk hnew hkey s0 hi) hr
+
+/-- `packet A { match kind as Body { 1 : B, }, }  packet B { u8 x, }` -/
+private def exUnkKey : Cst :=
+  { defs := [.packet (pkD false "A" 1 [fMatch "kind" "Body" 2 [mPair "1" "B" 3]]), .packet (pkD false "B" 6 [fU8 "x" 7])] }
+
+example (s : VState) (h : Visit.run exUnkKey = .ok s) :
+    (2, "Unknown key field " ++ "kind" ++ " for match field " ++ "Body") ∈ s.diags :=
+  unknown_key_field_run exUnkKey (pkD false "A" 1 [fMatch "kind" "Body" 2 [mPair "1" "B" 3]]) (fMatch "kind" "Body" 2 [mPair "1" "B" 3])
+    (mDecl "kind" "Body" 2 [mPair "1" "B" 3]) (tk .comma "," 4) [] [] s (List.mem_cons_self ..) rfl rfl (fun a ha => by cases ha)
+    (by decide) (by decide) h
+
+example : diagsOfText "packet A {\n match kind as Body {\n  1 : B,\n },\n}\npacket B {\n u8 x,\n}\n" =
+    some [(2, "Unknown key field kind for match field Body")] := by decide +kernel
+
+/-! ### A MetaData reference to an undeclared entry -/
+
+/-- **E, unknown MetaData type of a reference.**  A MetaData entry `T N` (`RefMetaDataDeclaration`) whose type `T` is not the
+name of any EARLIER MetaData entry of the file is reported with `Unknown MetaData type T for N` at its line (and is not
+registered). -/
+theorem unknown_meta_ref_run (c : Cst) (r : RefMetaDecl) (l1 l2 : List MetaEntry) (s : VState)
+    (hc : metaEntries c = l1 ++ .ref r :: l2) (hn : r.typ.text ∉ l1.map entryName) (hr : Visit.run c = .ok s) :
+    (r.typ.line, "Unknown MetaData type " ++ r.typ.text ++ " for " ++ r.name.text) ∈ s.diags := by
+  refine diag_of_phase1 ?_ hr
+  rw [metaLoop_eq]
+  unfold metaEntries at hc
+  rw [hc]
+  exact forM_offence1 metaEntryStep_grows _ l1 l2 _ (MetaFrom (l1.map entryName)) {} (metaLoop_metaFrom l1)
+    (fun s1 h1 => metaRef_unknown r s1 (findMeta_none_of_metaFrom h1 hn))
+
+/-- `MetaData M { Kind Sub, u8 Kind, }` (the reference comes before the declaration) -/
+private def exUnkRef : Cst :=
+  { defs := [.metaD { kw := tk .metadata "MetaData" 1, name := tk .ident "M" 1, lb := tk .lbrace "{" 1,
+                      entries := [.ref { typ := tk .ident "Kind" 2, name := tk .ident "Sub" 2, doc := none, comma := tk .comma "," 2 },
+                                  .decl (mdU .uint8 "u8" "Kind" 3)], rb := tk .rbrace "}" 4 }] }
+
+example (s : VState) (h : Visit.run exUnkRef = .ok s) : (2, "Unknown MetaData type " ++ "Kind" ++ " for " ++ "Sub") ∈ s.diags :=
+  unknown_meta_ref_run exUnkRef { typ := tk .ident "Kind" 2, name := tk .ident "Sub" 2, doc := none, comma := tk .comma "," 2 }
+    [] [.decl (mdU .uint8 "u8" "Kind" 3)] s rfl (by decide) h
+
+example : diagsOfText "MetaData M {\n Kind Sub,\n u8 Kind,\n}\n" = some [(2, "Unknown MetaData type Kind for Sub")] := by
+  decide +kernel
+
+/-! ### The other direction for the classes of E, and the second root -/
+
+/-- in a file without duplicate packet names a packet definition is the first of its name -/
+private theorem first_of_name {c : Cst} (hclean : ∀ p q, Before c.defs (.packet p) (.packet q) → p.name.text ≠ q.name.text)
+    (A B : List TopDef) (q : PacketDef) (e : c.defs = A ++ .packet q :: B) : q.name.text ∉ packetNames A := by
+  intro hmem
+  obtain ⟨d, hd1, hd2⟩ := List.mem_filterMap.1 hmem
+  cases d with
+  | packet r =>
+    obtain ⟨a, b, e1⟩ := List.append_of_mem hd1
+    refine hclean r q ⟨a, b, B, by rw [e, e1]; simp⟩ ?_
+    simpa using hd2
+  | metaD m => simp at hd2
+  | opt o => simp at hd2
+
+/-- **D/E, the other direction, continued.**  A run without diagnostics also means: at most one packet is declared `root`;
+every object field (`[repeat] T [name]`, only `@tag` / padding attributes, not repeating an earlier field name) has a type
+that is a MetaData entry or a packet of the file; every target of such a match field is a packet of the file; no match field
+of a packet has two equal keys; the root packet has at most one length field; the key of such a match field is a field of
+its packet; the target of the (first) length field declaration of the root packet is a field of the packet that is not
+declared before it; and inside inline objects (at any depth): no match field has two equal keys, no sub-field is a length
+field declaration, the key of a match field is a sub-field of the same inline object; and every MetaData reference names an
+earlier MetaData entry. -/
+theorem clean_run_sound_ext (c : Cst) (s : VState) (hr : Visit.run c = .ok s) (hd : s.diags = []) :
+    (∀ p q, Before c.defs (.packet p) (.packet q) → ¬ (p.root.isSome = true ∧ q.root.isSome = true)) ∧
+    (∀ p f l1 l2 rep ft fn doc comma, TopDef.packet p ∈ c.defs → p.fields = l1 ++ f :: l2 →
+      fieldName f.fd ∉ l1.map (fun f => fieldName f.fd) → f.fd = .obj rep ft fn doc comma →
+      (∀ a, a ∈ f.attrs → attrKeeps a = true) → ft.text ∈ metaNames c ∨ ft.text ∈ packetNames c.defs) ∧
+    (∀ p f l1 l2 d comma pr, TopDef.packet p ∈ c.defs → p.fields = l1 ++ f :: l2 →
+      fieldName f.fd ∉ l1.map (fun f => fieldName f.fd) → f.fd = .match_ d comma →
+      (∀ a, a ∈ f.attrs → attrKeeps a = true) → pr ∈ pairsOfMatch d → pr.value ∈ packetNames c.defs) ∧
+    (∀ p f d comma a b, TopDef.packet p ∈ c.defs → f ∈ p.fields → f.fd = .match_ d comma →
+      Before (pairsOfMatch d) a b → a.key ≠ b.key) ∧
+    (∀ p f1 f2, TopDef.packet p ∈ c.defs → p.root.isSome = true → Before p.fields f1 f2 →
+      ¬ (isLenSyn f1 = true ∧ isLenSyn f2 = true)) ∧
+    (∀ p f l1 l2 d comma, TopDef.packet p ∈ c.defs → p.fields = l1 ++ f :: l2 →
+      fieldName f.fd ∉ l1.map (fun f => fieldName f.fd) → f.fd = .match_ d comma →
+      (∀ a, a ∈ f.attrs → attrKeeps a = true) → d.key.text ∈ p.fields.map (fun f => fieldName f.fd)) ∧
+    (∀ p f l1 l2 d, TopDef.packet p ∈ c.defs → p.root.isSome = true → p.fields = l1 ++ f :: l2 → f.fd = .len d →
+      (∀ a, a ∈ f.attrs → attrKeeps a = true) → (∀ x, x ∈ l1 → isLenSyn x = false) →
+      d.name.text ∉ l1.map (fun f => fieldName f.fd) →
+      d.attr.from_.text ∈ p.fields.map (fun f => fieldName f.fd) ∧
+        d.attr.from_.text ∉ l1.map (fun f => fieldName f.fd)) ∧
+    (∀ p f d comma a b, TopDef.packet p ∈ c.defs → f ∈ p.fields → SubFd (.match_ d comma) f.fd →
+      Before (pairsOfMatch d) a b → a.key ≠ b.key) ∧
+    (∀ p f rep name lb rb comma a b d, TopDef.packet p ∈ c.defs → f ∈ p.fields →
+      ¬ SubFd (.iner rep name lb (a ++ .len d :: b) rb comma) f.fd) ∧
+    (∀ p f rep name lb rb comma' a b d comma, TopDef.packet p ∈ c.defs → f ∈ p.fields →
+      SubFd (.iner rep name lb (a ++ .match_ d comma :: b) rb comma') f.fd →
+      d.key.text ∈ (a ++ .match_ d comma :: b).map fieldName) ∧
+    (∀ r l1 l2, metaEntries c = l1 ++ .ref r :: l2 → r.typ.text ∈ l1.map entryName) := by
+  have no : ∀ d : Nat × String, d ∈ s.diags → False := by intro d h; rw [hd] at h; cases h
+  have hclean := (clean_run_sound c s hr hd).1
+  refine ⟨?_, ?_, ?_, ?_, ?_, ?_, ?_, ?_, ?_, ?_, ?_⟩
+  · intro p q ⟨l1, l2, l3, hc⟩ ⟨hp, hq⟩
+    exact no _ (second_root_run c p q l1 l2 l3 s hc hp hq (first_of_name hclean l1 _ p hc)
+      (first_of_name hclean (l1 ++ .packet p :: l2) l3 q (by rw [hc]; simp)) hr)
+  · intro p f l1 l2 rep ft fn doc comma hp hc hnew hfd hk
+    obtain ⟨L1, L2, e⟩ := List.append_of_mem hp
+    refine Classical.byContradiction fun hno => ?_
+    exact no _ (unknown_field_type_run c p f L1 L2 l1 l2 rep ft fn doc comma s e (first_of_name hclean L1 L2 p e) hc hnew hfd hk
+      (fun h => hno (.inl h)) (fun h => hno (.inr h)) hr)
+  · intro p f l1 l2 d comma pr hp hc hnew hfd hk hpr
+    obtain ⟨L1, L2, e⟩ := List.append_of_mem hp
+    refine Classical.byContradiction fun hno => ?_
+    exact no _ (unknown_match_target_run c p f L1 L2 l1 l2 d comma pr s e (first_of_name hclean L1 L2 p e) hc hnew hfd hk hpr
+      hno hr)
+  · intro p f d comma a b hp hf hfd hb hk
+    exact no _ (dup_match_key_run c p f d comma a b s hp hf hfd hb hk hr)
+  · intro p f1 f2 hp hroot hb ⟨h1, h2⟩
+    exact no _ (dup_len_run c p f1 f2 s hp hroot hb h1 h2 hr)
+  · intro p f l1 l2 d comma hp hc hnew hfd hk
+    refine Classical.byContradiction fun hno => ?_
+    exact no _ (unknown_key_field_run c p f d comma l1 l2 s hp hc hfd hk hnew hno hr)
+  · intro p f l1 l2 d hp hroot hc hfd hk hl1 hnew
+    constructor
+    · refine Classical.byContradiction fun hno => ?_
+      exact no _ (unknown_len_target_run c p f d l1 l2 s hp hroot hc hfd hk hl1 hnew hno hr)
+    · intro hmem
+      obtain ⟨t, htm, htn⟩ := List.mem_map.1 hmem
+      exact no _ (len_target_before_run c p f t d l1 l2 s hp hroot hc hfd hk hl1 hnew htm htn hr)
+  · intro p f d comma a b hp hf hsub hb hk
+    exact no _ (dup_match_key_nested_run c p f d comma a b s hp hf hsub hb hk hr)
+  · intro p f rep name lb rb comma a b d hp hf hsub
+    exact no _ (len_in_inline_run c p f rep name lb rb comma a b d s hp hf hsub hr)
+  · intro p f rep name lb rb comma' a b d comma hp hf hsub
+    refine Classical.byContradiction fun hno => ?_
+    exact no _ (unknown_key_in_inline_run c p f rep name lb rb comma' a b d comma s hp hf hsub hno hr)
+  · intro r l1 l2 hc
+    refine Classical.byContradiction fun hno => ?_
+    exact no _ (unknown_meta_ref_run c r l1 l2 s hc hno hr)
+
+/-! ## F. Acceptance of larger fragments -/
+
+/-- **F (partial: the flat fragment with MetaData references).**  As `wf_accepted_partial`, for `WFRefs`
+(`Proofs/VisitDiag2.lean`): a MetaData entry may also be a reference `Type name` (`RefMetaDataDeclaration`) provided `Type`
+names an EARLIER MetaData entry; such an entry shares the attribute of the entry it refers to and can be used as a field
+type like any other.  A well-formed file of this fragment is visited without a crash and **without any diagnostic**.
+
+The fragment still EXCLUDES: length fields (`@lengthOf`, declaration or prefix attribute), prefix `@calculatedFrom`
+attributes, fields whose type is a packet, inline objects and match fields. -/
+theorem wf_accepted_refs_partial (c : Cst) (h : WFRefs c) : ∃ s, Visit.run c = .ok s ∧ s.diags = [] := by
+  obtain ⟨s, hs⟩ := Visit.run_ok c
+  exact ⟨s, hs, run_of_wlp (Q := fun s => s.diags = []) (visitCst_refs c h) hs⟩
+
+/-- `MetaData M { u16 MsgType, MsgType Kind, }  root packet P { MsgType, Kind, u8 x, }` -/
+private def exRefs : Cst :=
+  { defs := [
+      .metaD { kw := tk .metadata "MetaData" 1, name := tk .ident "M" 1, lb := tk .lbrace "{" 1,
+               entries := [.decl (mdU .uint16 "u16" "MsgType" 2),
+                           .ref { typ := tk .ident "MsgType" 3, name := tk .ident "Kind" 3, doc := none, comma := tk .comma "," 3 }],
+               rb := tk .rbrace "}" 4 },
+      .packet (pkD true "P" 5 [
+        { attrs := [], fd := .obj none (tk .ident "MsgType" 6) none none (tk .comma "," 6) },
+        { attrs := [], fd := .obj none (tk .ident "Kind" 7) none none (tk .comma "," 7) },
+        fU8 "x" 8])] }
+
+private theorem exRefs_wf : WFRefs exRefs := by
+  refine ⟨?_, by decide, ?_, by decide, by decide, by decide, ?_⟩
+  · have e1 : metaEntries exRefs = [_, _] := rfl
+    rw [e1]
+    exact ⟨trivial, by decide, trivial⟩
+  · intro o ho
+    have e1 : optDecls exRefs = [] := rfl
+    rw [e1] at ho
+    cases ho
+  · intro p hp
+    have e1 : exRefs.defs = [_, _] := rfl
+    rw [e1] at hp
+    simp only [List.mem_cons, List.not_mem_nil, or_false, reduceCtorEq, false_or, TopDef.packet.injEq] at hp
+    subst hp
+    refine ⟨?_, by decide⟩
+    intro f hf
+    change f ∈ [_, _, _] at hf
+    simp only [List.mem_cons, List.not_mem_nil, or_false] at hf
+    rcases hf with rfl | rfl | rfl
+    · exact ⟨(by decide : "MsgType" ∈ metaNames exRefs), fun a ha => by cases ha⟩
+    · exact ⟨(by decide : "Kind" ∈ metaNames exRefs), fun a ha => by cases ha⟩
+    · exact ⟨trivial, fun a ha => by cases ha⟩
+
+example : ∃ s, Visit.run exRefs = .ok s ∧ s.diags = [] := wf_accepted_refs_partial exRefs exRefs_wf
+
+example : diagsOfText "MetaData M {\n u16 MsgType,\n MsgType Kind,\n}\nroot packet P {\n MsgType,\n Kind,\n u8 x,\n}\n" = some [] := by
+  decide +kernel
+
+/-- **F (partial: MetaData references and prefix `@calculatedFrom`).**  As `wf_accepted_refs_partial`, for `WFCalc`
+(`Proofs/VisitDiag2.lean`): in addition a field that is not a `char[n]` field may carry prefix `@calculatedFrom(..)`
+attributes (it becomes a checksum field of its type; `@tag(n)` is allowed everywhere, padding on `char[n]` fields).  A
+well-formed file of this fragment is visited without a crash and **without any diagnostic**.
+
+The fragment still EXCLUDES: length fields (`@lengthOf`, declaration or prefix attribute), `@calculatedFrom` on a `char[n]`
+field, fields whose type is a packet, inline objects and match fields.  (The packet-level part of the proof,
+`packetLoop_quiet`, only needs `QuietFieldSem`: visiting the field yields no diagnostic and an attribute that is basic,
+`char[n]`, string or checksum.) -/
+theorem wf_accepted_calc_partial (c : Cst) (h : WFCalc c) : ∃ s, Visit.run c = .ok s ∧ s.diags = [] := by
+  obtain ⟨s, hs⟩ := Visit.run_ok c
+  exact ⟨s, hs, run_of_wlp (Q := fun s => s.diags = []) (visitCst_calc c h) hs⟩
+
+/-- `MetaData M { u16 MsgType, MsgType Kind, }  root packet P { Kind, @calculatedFrom("CRC32") u32 Crc, @tag(3) u8 x, }` -/
+private def exCalc : Cst :=
+  { defs := [
+      .metaD { kw := tk .metadata "MetaData" 1, name := tk .ident "M" 1, lb := tk .lbrace "{" 1,
+               entries := [.decl (mdU .uint16 "u16" "MsgType" 2),
+                           .ref { typ := tk .ident "MsgType" 3, name := tk .ident "Kind" 3, doc := none, comma := tk .comma "," 3 }],
+               rb := tk .rbrace "}" 4 },
+      .packet (pkD true "P" 5 [
+        { attrs := [], fd := .obj none (tk .ident "Kind" 6) none none (tk .comma "," 6) },
+        { attrs := [.calc { kw := tk .calcFrom "@calculatedFrom(" 7, from_ := tk .string "\"CRC32\"" 7, rp := tk .rparen ")" 7 }],
+          fd := (fT .uint32 "u32" "Crc" 7).fd },
+        { attrs := [.tag (tk .tagAt "@tag(" 8) (tk .digits "3" 8) (tk .rparen ")" 8)], fd := (fU8 "x" 8).fd }])] }
+
+private theorem exCalc_wf : WFCalc exCalc := by
+  refine ⟨?_, by decide, ?_, by decide, by decide, by decide, ?_, ?_⟩
+  · have e1 : metaEntries exCalc = [_, _] := rfl
+    rw [e1]
+    exact ⟨trivial, by decide, trivial⟩
+  · intro o ho
+    have e1 : optDecls exCalc = [] := rfl
+    rw [e1] at ho
+    cases ho
+  · intro p hp f hf
+    have e1 : exCalc.defs = [_, _] := rfl
+    rw [e1] at hp
+    simp only [List.mem_cons, List.not_mem_nil, or_false, reduceCtorEq, false_or, TopDef.packet.injEq] at hp
+    subst hp
+    change f ∈ [_, _, _] at hf
+    simp only [List.mem_cons, List.not_mem_nil, or_false] at hf
+    rcases hf with rfl | rfl | rfl
+    · exact ⟨(by decide : "Kind" ∈ metaNames exCalc), fun a ha => by cases ha⟩
+    · refine ⟨trivial, fun a ha => ?_⟩
+      have : a = _ := List.mem_singleton.1 ha
+      subst this
+      exact fun hh => hh
+    · refine ⟨trivial, fun a ha => ?_⟩
+      have : a = _ := List.mem_singleton.1 ha
+      subst this
+      exact trivial
+  · intro p hp
+    have e1 : exCalc.defs = [_, _] := rfl
+    rw [e1] at hp
+    simp only [List.mem_cons, List.not_mem_nil, or_false, reduceCtorEq, false_or, TopDef.packet.injEq] at hp
+    subst hp
+    decide
+
+example : ∃ s, Visit.run exCalc = .ok s ∧ s.diags = [] := wf_accepted_calc_partial exCalc exCalc_wf
+
+example : diagsOfText "MetaData M {\n u16 MsgType,\n MsgType Kind,\n}\nroot packet P {\n Kind,\n @calculatedFrom(\"CRC32\") u32 Crc,\n @tag(3) u8 x,\n}\n" = some [] := by
+  decide +kernel
+
+/-- a clean run has none of the offences of E (the hypotheses of `clean_run_sound_ext` are satisfiable) -/
+example (s : VState) (h : Visit.run exRefs = .ok s) (hd : s.diags = []) (p q : PacketDef)
+    (hb : Before exRefs.defs (.packet p) (.packet q)) : ¬ (p.root.isSome = true ∧ q.root.isSome = true) :=
+  (clean_run_sound_ext exRefs s h hd).1 p q hb
 
 /-! ## T1: the option table of the visitor model is the table of `model.go` as it stands now
 
